@@ -1,5 +1,5 @@
 (* C04 — Structure layout follows C rules; declared size equals bytes read and written. *)
-From VF Require Import Model.Layout Proofs.LayoutCorrect Gen.GeneratedOk.
+From VF Require Import Model.Writer Proofs.LayoutCorrect Proofs.CodecCorrect Proofs.SizeProps Proofs.RoundTrip Gen.GeneratedOk.
 Open Scope list_scope. Open Scope Z_scope.
 
 (* For every field list without bit fields and pre-set offsets whose members are statically sized, the
@@ -36,7 +36,25 @@ Proof. exact array_size_align. Qed.
 Theorem pointers_follow_configuration : forall c t, ty_size c (TPtr t) = prim_size_z (c_ptr c) /\ ty_align c (TPtr t) = c_ptr_al c.
 Proof. exact pointer_size_align. Qed.
 
+
+(* len(T) of a structure is the size its layout computes *)
+Theorem struct_size_is_layout_size : forall c nm fs al,
+  ty_size c (TStruct nm fs al) = match layout_struct c al fs with Ok lay => l_size lay | Err _ => None end.
+Proof. exact ty_size_struct. Qed.
+(* the declared size is what a successful parse consumes: every sequential fixed-size type (scalars, enums, pointers, fixed arrays, packed
+   structures of plain fields, nested to any depth), every stream, position, context and fuel *)
+Theorem parse_consumes_declared_size : forall c fuel t, flat t = true -> forall n, ty_size c t = Some n ->
+  forall s pos ctx v p, read_ty c fuel t s pos ctx = Ok (v, p) -> p = pos + n.
+Proof. exact read_consumes_size. Qed.
+(* ... and what dumping the parsed value produces *)
+Theorem sizes_all_agree : forall c, endian_ok (c_endian c) -> forall fuel t n, flat t = true -> fid_ty c t = true -> ty_size c t = Some n ->
+  forall s pos ctx v p, Bytes s -> 0 <= pos -> read_ty c fuel t s pos ctx = Ok (v, p) ->
+    p = pos + n /\ forall wpos, exists bs, write_ty c t v wpos = Ok bs /\ zlen bs = n.
+Proof. exact sizes_agree. Qed.
+
 Print Assumptions layout_is_c.
+Print Assumptions parse_consumes_declared_size.
+Print Assumptions sizes_all_agree.
 Print Assumptions c_aligned_next_multiple.
 Print Assumptions padding_is_roundup.
 Print Assumptions padding_minimal.
